@@ -648,7 +648,15 @@ func GetLatestEntry(storer gitstore.Storer) (Entry, error) {
 		return nil, err
 	}
 
-	return GetEntry(storer, commitID)
+	entry, err := GetEntry(storer, commitID)
+	if err != nil && errors.Is(err, ErrRSLEntryNotFound) {
+		// The RSL reference exists, so failing to load its tip must not be
+		// reported as "the RSL has no entries": callers such as the entry
+		// numbering treat ErrRSLEntryNotFound as an empty log.
+		return nil, fmt.Errorf("unable to load latest RSL entry '%s': %s", commitID.String(), err.Error())
+	}
+
+	return entry, err
 }
 
 // GetLatestReferenceUpdaterEntry returns the latest reference updater entry in
